@@ -163,7 +163,7 @@ pub fn seq_op(a: SeqAlphabet) -> BoxedStrategy<Op> {
         (2, s().prop_map(|rx| Op::RecvView { rx }).boxed()),
         (2, (s(), 0u8..4, any::<u8>()).prop_map(|(rx, max, variant)| Op::TryIter { rx, max, variant }).boxed()),
         (1, (s(), 0u8..3, any::<u8>()).prop_map(|(rx, max, variant)| Op::IntoIter { rx, max, variant }).boxed()),
-        (2, (s(), s(), 0u8..3, any::<u8>()).prop_map(|(rx, tx, max, variant)| Op::TryIterAcross { rx, tx, max, variant }).boxed()),
+        (2, (s(), s(), 0u8..3, any::<u8>()).prop_map(|(rx, tx, max, variant)| Op::TryIterAcross { rx, tx, max, variant, clone_to: 0 }).boxed()),
         (2, s().prop_map(|tx| Op::CloneTx { tx }).boxed()),
         (2, s().prop_map(|tx| Op::DropTx { tx }).boxed()),
         (1, s().prop_map(|tx| Op::UnsubTx { tx }).boxed()),
@@ -365,6 +365,9 @@ pub struct ConsumerPlan {
     /// position among `ops` at which the consumer calls add_stream and hands the new stream to a
     /// child thread that drains it
     pub fork: Option<(u8, DrainHow)>,
+    /// the fork is not an added stream but a clone made while a non-blocking iterator of this
+    /// receiver is alive: the old iterator and the new sibling then receive concurrently
+    pub fork_iter: bool,
 }
 
 #[derive(Clone, Debug)]
@@ -496,8 +499,8 @@ fn consumer_plan(p: TrafficParams, may_leave: bool) -> BoxedStrategy<ConsumerPla
     } else {
         Just(None).boxed()
     };
-    (vec(op, 0..6), fin, any::<bool>(), fork)
-        .prop_map(|(ops, fin, single, fork)| ConsumerPlan { ops, fin, single, fork })
+    (vec(op, 0..6), fin, any::<bool>(), fork, prop_oneof![3 => Just(false), 1 => Just(true)])
+        .prop_map(|(ops, fin, single, fork, fork_iter)| ConsumerPlan { ops, fin, single, fork, fork_iter })
         .boxed()
 }
 
@@ -607,7 +610,17 @@ pub fn build_traffic(plan: &TrafficPlan, opts: &ExecOpts) -> Scenario {
             let mut ops = Vec::new();
             // a consumer of a broadcast stream (sole handle or one of several) may add a stream
             // during traffic; at most two such forks per scenario
-            let do_fork = q.flavour == Flavour::Broadcast && forks_left > 0 && cp.fork.is_some();
+            let iter_fork = cp.fork_iter && !q.futures;
+            let do_fork = (q.flavour == Flavour::Broadcast || iter_fork) && forks_left > 0 && cp.fork.is_some();
+            let fork_ops = |ops: &mut Vec<Op>| {
+                if iter_fork {
+                    let v = cp.fork.map(|f| f.0).unwrap_or(0);
+                    ops.push(Op::TryIterAcross { rx: 0, tx: 0, max: v % 2, variant: v, clone_to: 255 });
+                } else {
+                    ops.push(Op::AddStream { rx: 0 });
+                    ops.push(Op::Spawn { prog: 0, tx: vec![], rx: vec![sel(1, 2)] });
+                }
+            };
             let fork_at = cp.fork.map(|f| (f.0 as usize).min(cp.ops.len())).unwrap_or(0);
             if cp.single && !do_fork {
                 ops.push(Op::IntoSingle { rx: 0 });
@@ -615,8 +628,7 @@ pub fn build_traffic(plan: &TrafficPlan, opts: &ExecOpts) -> Scenario {
             for (oi, o) in cp.ops.iter().enumerate() {
                 if do_fork && oi == fork_at {
                     fork_children.push((progs.len(), cp.fork.unwrap().1));
-                    ops.push(Op::AddStream { rx: 0 });
-                    ops.push(Op::Spawn { prog: 0, tx: vec![], rx: vec![sel(1, 2)] });
+                    fork_ops(&mut ops);
                 }
                 match o {
                     COp::TryRecv => ops.push(Op::TryRecv { rx: 0 }),
@@ -634,8 +646,7 @@ pub fn build_traffic(plan: &TrafficPlan, opts: &ExecOpts) -> Scenario {
             }
             if do_fork && fork_at >= cp.ops.len() {
                 fork_children.push((progs.len(), cp.fork.unwrap().1));
-                ops.push(Op::AddStream { rx: 0 });
-                ops.push(Op::Spawn { prog: 0, tx: vec![], rx: vec![sel(1, 2)] });
+                fork_ops(&mut ops);
             }
             match &cp.fin {
                 Fin::Drain(how, extra) => ops.push(Op::Drain { rx: 0, how: *how, extra: *extra }),
@@ -655,6 +666,11 @@ pub fn build_traffic(plan: &TrafficPlan, opts: &ExecOpts) -> Scenario {
             if let Op::Spawn { prog, .. } = o {
                 if *prog == 0 {
                     *prog = child;
+                }
+            }
+            if let Op::TryIterAcross { clone_to, .. } = o {
+                if *clone_to == 255 {
+                    *clone_to = child;
                 }
             }
         }
